@@ -460,13 +460,11 @@ def work(p):
 
 # ---------------------------------------------------------------------------------------------- run / replay
 
-def plan(tier):
-    """[(family, lo, hi, stride)]: which index ranges of which family a tier evaluates."""
-    return ["bundled", "n1", "n2", "halfturn", "contlim", "sched"]
+FAMILIES = ["bundled", "n1", "n2", "halfturn", "contlim", "sched"]   # both tiers; only the size of `sched` differs
 
 
 def run(ctx):
-    fams = plan(ctx.tier)
+    fams = FAMILIES
     parts = []
     with ctx.pool() as pool:
         for fam in fams:
@@ -474,7 +472,10 @@ def run(ctx):
             nsh = 1 if total < 64 else pool.workers * (6 if total > 20000 else 2)
             m = lattice.run(ctx, pool, MOD, "work", total, extra={"fam": fam}, nshards=nsh, part=fam)
             parts.append((fam, m))
-    shutil.rmtree(os.path.join(env.VERIF, ".cache", "c13"), ignore_errors=True)
+    try:
+        os.rmdir(os.path.join(env.VERIF, ".cache", "c13"))   # workers remove their own <pid> directories
+    except OSError:
+        pass
     P = pal(ctx.seed)
     sched_rule = ("every offset s=0..39" if ctx.tier == "thorough" else "offsets s in {0,13,26}")
     lattice.fill(ctx, parts,
@@ -507,4 +508,8 @@ def replay(rec):
         found, _ = evaluate_case(c, tmp)
     finally:
         shutil.rmtree(tmp, ignore_errors=True)
+        try:
+            os.rmdir(os.path.dirname(tmp))
+        except OSError:
+            pass
     return [f for f in found if f["clause"] == rec["clause"]]
